@@ -105,7 +105,7 @@ def type_cells():
 
 
 def search(skip_known=True):
-    hit = submodule_cases() or extends_cases() or same_name_cases() or binding_attribute_case()
+    hit = submodule_cases() or extends_cases() or same_name_cases() or binding_attribute_case() or multi_name_binding_case() or accessible_set_case()
     if hit:
         return hit
     for cell in cells():
@@ -226,6 +226,38 @@ def binding_attribute_case():
     if got != want or junk:
         return {"confirmed": True, "input": {"source": text}, "actual": {"accessibility": got, "access keywords left among the attributes": junk}, "expected": {"accessibility": want, "access keywords left among the attributes": {}},
                 "how": "real parser: accessibility of type-bound procedures whose access attribute is written in upper / mixed case"}
+    return None
+
+
+def multi_name_binding_case():
+    """`procedure :: a, b` declares several bindings: each takes the binding default of the type's CONTAINS part (or the statement's own attribute), not the accessibility of the type"""
+    text = ("module m\n  implicit none\n  private\n  public :: box\n  type, public :: vault\n    integer :: c\n  contains\n    private\n    procedure :: peek, poke\n    procedure, public :: open_it, shut_it\n  end type vault\n"
+            "  type :: box\n    integer :: c\n  contains\n    procedure :: fill, drain\n  end type box\ncontains\n"
+            + "".join(f"  subroutine {n}(self)\n    class({t}) :: self\n  end subroutine {n}\n" for n, t in (("peek", "vault"), ("poke", "vault"), ("open_it", "vault"), ("shut_it", "vault"), ("fill", "box"), ("drain", "box")))
+            + "end module m\n")
+    m = realrun.parse_source(text).modules[0]
+    got = {f"{ty.name}%{bp.name}": bp.permission for ty in m.types for bp in ty.boundprocs}
+    want = {"vault%peek": "private", "vault%poke": "private", "vault%open_it": "public", "vault%shut_it": "public", "box%fill": "public", "box%drain": "public"}
+    if got != want:
+        return {"confirmed": True, "input": {"source": text}, "actual": got, "expected": want, "how": "real parser: accessibility of the bindings of multi-name PROCEDURE statements"}
+    return None
+
+
+def accessible_set_case():
+    """what a module makes accessible (its pub_* tables, from which USE association and the export take their names) is its public AND protected entities, specific procedures
+    declared by interface bodies of a generic included; a private type stays out whatever its constructor interface is"""
+    files = {"src/a.f90": ("module a\n  implicit none\n  integer, protected :: pv = 1\n  integer, public, protected :: ppv = 2\n  integer, private :: hidden = 3\n  integer :: plain = 4\n  protected :: late\n  integer :: late\n"
+                           "  interface gen\n    subroutine spec_a(x)\n      integer :: x\n    end subroutine spec_a\n  end interface gen\nend module a\n"),
+             "src/b.f90": "module b\n  use a\n  implicit none\ncontains\n  subroutine s()\n    print *, pv, ppv, late\n  end subroutine s\nend module b\n"}
+    proj = realrun.build_project(files)
+    a = next(m for m in proj.modules if m.name == "a")
+    got = {"pub_vars": sorted(a.pub_vars), "pub_procs": sorted(a.pub_procs)}
+    want = {"pub_vars": ["late", "plain", "ppv", "pv"], "pub_procs": ["gen", "spec_a"]}
+    b = next(m for m in proj.modules if m.name == "b")
+    seen = sorted(k for k in ("pv", "ppv", "late", "hidden") if k in getattr(b.subroutines[0], "all_vars", {}))
+    if got != want or seen != ["late", "ppv", "pv"]:
+        return {"confirmed": True, "input": {"files": files}, "actual": {"tables of a": got, "visible in b's procedure": seen}, "expected": {"tables of a": want, "visible in b's procedure": ["late", "ppv", "pv"]},
+                "how": "real Project + correlate: the accessible set of a module with protected variables and a generic with an interface body"}
     return None
 
 
